@@ -141,7 +141,14 @@ def failed_append_tie(rep, cases, what="append"):
         if not f or c.impl is None or not c.impl or c.impl[0] != "open ok":
             continue
         opi, kind, name = f[0]
-        if kind != ("write" if what == "append" else "fsync") or not name.endswith(".data") or not (0 <= opi < len(c.ops)) \
+        if what == "hint":
+            # the write of a hint entry failed inside a merge pass
+            if kind != "write" or not name.endswith(".hint") or not (0 <= opi < len(c.ops)) or c.ops[opi][0] != "merge":
+                continue
+            mi = sum(1 for o in c.ops[:opi] if o[0] == "merge")
+            if not c.orders or mi >= len(c.orders) or not c.orders[mi]:
+                continue                   # (the keys the pass had copied when it stopped are read back from its output)
+        elif kind != ("write" if what == "append" else "fsync") or not name.endswith(".data") or not (0 <= opi < len(c.ops)) \
                 or c.ops[opi][0] not in ("set", "del"):
             continue
         if len(c.impl) < len(c.ops) + 1 or any(l in ("panic", "abandoned") for l in c.impl):
@@ -166,6 +173,12 @@ def failed_append_tie(rep, cases, what="append"):
         for i, o in enumerate(c.ops):
             if o[0] == "failat":
                 continue
+            if i == opi and what == "hint":
+                keys = [bytes.fromhex(x) if x != "-" else b"" for x in c.orders[mi].split(",")]
+                ops.append("FailHint [%s] %s %s" % ("; ".join(S.coq_bytes(k) for k in keys[:-1]), S.coq_bytes(keys[-1]),
+                                                    "true" if retried(keys[-1]) else "false"))
+                mi += 1
+                continue
             if i == opi:
                 one = S.Case("x", c.cfg, [o])
                 if what == "fsync":
@@ -179,6 +192,10 @@ def failed_append_tie(rep, cases, what="append"):
                 mi += 1
             ops.append(S.coq_case(one).split(", [", 1)[1][:-2])
         return body.split(", [", 1)[0] + ", [" + "; ".join(ops) + "])"
+    def retried(key):
+        """a hint entry below the buffer size is one buffered write: the failed flush leaves its bytes in std's BufWriter, whose
+        Drop writes them out when the pass returns; a larger one is torn (header flushed, key written directly)"""
+        return 32 + len(key) < 8192
     def kept(c, opi):
         """is the whole record still in the write buffer?  yes iff the failing call was the last write of the operation and that
         write was a flush of the buffer (the value is shorter than the buffer) — then a clean close writes it out"""
@@ -210,8 +227,9 @@ def failed_append_tie(rep, cases, what="append"):
             ncmp += 1
             # the bytes of the files are not compared: what a failed append left behind is not a record (junk tail)
             # (failed fsync: the record is whole, the bytes of every file are compared too)
-            mm = [S.norm(x) for x in model[:-1] if what == "fsync" or not x.startswith("cat ")]
-            ii = [S.norm(x) for x in impl[:len(model) - 1] if what == "fsync" or not x.startswith("cat ")]
+            withcat = what == "fsync" or (what == "hint" and retried(bytes.fromhex(c.orders[sum(1 for o in c.ops[:opi] if o[0] == "merge")].split(",")[-1].replace("-", ""))))
+            mm = [S.norm(x) for x in model[:-1] if withcat or not x.startswith("cat ")]
+            ii = [S.norm(x) for x in impl[:len(model) - 1] if withcat or not x.startswith("cat ")]
             if mm != ii:
                 ndis += 1
                 j = next((k for k in range(min(len(mm), len(ii))) if mm[k] != ii[k]), min(len(mm), len(ii)))
@@ -278,6 +296,7 @@ def main(tier, seed):
     rep.failing.sort(key=lambda f: len(f["case"]["ops"]))
     cov_tie = failed_append_tie(rep, cases)
     cov_tie_fsync = failed_append_tie(rep, cases, "fsync")
+    cov_tie_hint = failed_append_tie(rep, cases, "hint")
     rep.coverage.update({
         "checker_cmd": "make -C coq Props/C20.vo (coqc 8.16.1) ; bin/check C20",
         "trusted_base": TRUSTED,
@@ -287,7 +306,7 @@ def main(tier, seed):
                 "effect), at " + ("every" if tier == "thorough" else "up to 18 sampled") + " call positions; afterwards every key "
                 "is read in the running process, the store is reopened and every key read again; distinct = (workload, position) "
                 "where the injector actually fired",
-        "fault_kinds": kinds, "exhaustive": tier == "thorough", "failed_append_model_tie": cov_tie, "failed_fsync_model_tie": cov_tie_fsync,
+        "fault_kinds": kinds, "exhaustive": tier == "thorough", "failed_append_model_tie": cov_tie, "failed_fsync_model_tie": cov_tie_fsync, "failed_hint_write_model_tie": cov_tie_hint,
         "samples": [cases[0].show()] if cases else [],
         "proof": {"file": "coq/Props/C20.v", "theorems": pr["theorems"], "axioms": pr["axioms"]},
     })
